@@ -84,7 +84,7 @@ func chainFamily(t *testing.T, r *mc.Run) {
 		}
 		own[i] = a
 	}
-	mc.Sequences(len(al), mc.Pick(r, 4, 5), func(idx []int) bool {
+	mc.Sequences(len(al), mc.Pick(r, 5, 6), func(idx []int) bool {
 		if len(idx) == 0 {
 			return true
 		}
